@@ -95,7 +95,9 @@ func jobC08m(c *rt.Ctx) {
 		var x Bignum256
 		Expand(&x, b)
 		bb := b
-		emit("expand", func() map[string]interface{} { return map[string]interface{}{"input": ref.Hex(bb), "output": ref.Hex(contract(&x))} }, contract(&x))
+		emit("expand", func() map[string]interface{} {
+			return map[string]interface{}{"input": ref.Hex(bb), "output": ref.Hex(contract(&x))}
+		}, contract(&x))
 	}
 	// Add / Mul on all ordered pairs of the boundary alphabet
 	As := alphaAsFixed()
@@ -116,7 +118,9 @@ func jobC08m(c *rt.Ctx) {
 			h.Write(contract(&m))
 		}
 		ii := i
-		emit("addmul", func() map[string]interface{} { return map[string]interface{}{"a": As[ii].String(), "partners": len(As)} }, h.Sum(nil))
+		emit("addmul", func() map[string]interface{} {
+			return map[string]interface{}{"a": As[ii].String(), "partners": len(As)}
+		}, h.Sum(nil))
 	}
 	// recodings: digit vectors are layout-independent
 	for _, s := range nibScalars(c.Thorough()) {
